@@ -5,6 +5,7 @@ package px
 import (
 	"bytes"
 	"context"
+	"encoding/json"
 	"errors"
 	"fmt"
 	"math"
@@ -70,6 +71,7 @@ type Opt struct {
 	ArgName   string   `json:"argname,omitempty"`
 	UseVar    bool     `json:"usevar,omitempty"`
 	SetCalled bool     `json:"setcalled,omitempty"`
+	AliasSplit bool    `json:"aliassplit,omitempty"` // aliases given through two Alias modifiers instead of one
 }
 
 // Keys - name followed by aliases.
@@ -102,6 +104,7 @@ type Prog struct {
 	Help     string `json:"help,omitempty"`
 	SelfName string `json:"selfname,omitempty"`
 	SelfDesc string `json:"selfdesc,omitempty"`
+	LateMode bool   `json:"latemode,omitempty"` // SetMode is called after the commands are defined
 	Root     *Cmd   `json:"root"`
 }
 
@@ -435,7 +438,9 @@ func Build(p *Prog) *Built {
 	if p.SelfName != "" || p.SelfDesc != "" {
 		opt.Self(p.SelfName, p.SelfDesc)
 	}
-	opt.SetMode(getoptions.Mode(p.Mode))
+	if !p.LateMode {
+		opt.SetMode(getoptions.Mode(p.Mode))
+	}
 	opt.SetUnknownMode(getoptions.UnknownMode(p.Unknown))
 	if p.ReqOrder {
 		opt.SetRequireOrder()
@@ -444,6 +449,9 @@ func Build(p *Prog) *Built {
 		opt.SetMapKeysToLower()
 	}
 	b.defineLevel(opt, p.Root, "")
+	if p.LateMode {
+		opt.SetMode(getoptions.Mode(p.Mode))
+	}
 	if p.Help != "" {
 		opt.HelpCommand(p.Help)
 	}
@@ -535,7 +543,9 @@ func (b *Built) defineOpt(g *getoptions.GetOpt, o *Opt) {
 		b.setEnv(o.Env, o.EnvVal, o.EnvSet)
 	}
 	var fns []getoptions.ModifyFn
-	if len(o.Aliases) > 0 {
+	if len(o.Aliases) > 1 && o.AliasSplit {
+		fns = append(fns, g.Alias(o.Aliases[:1]...), g.Alias(o.Aliases[1:]...))
+	} else if len(o.Aliases) > 0 {
 		fns = append(fns, g.Alias(o.Aliases...))
 	}
 	if o.Desc != "" {
@@ -780,4 +790,33 @@ func Run(p *Prog, argv []string, dispatch bool) (oc *Outcome) {
 		b.RunDispatch(oc, "mk")
 	}
 	return oc
+}
+
+// CloneProg - deep copy of a program definition.
+func CloneProg(p *Prog) *Prog {
+	b, _ := json.Marshal(p)
+	var q Prog
+	_ = json.Unmarshal(b, &q)
+	return &q
+}
+
+// CmdAt - the command declaration at a path ("" = root).
+func (p *Prog) CmdAt(path string) *Cmd {
+	c := p.Root
+	if path == "" {
+		return c
+	}
+	for _, name := range strings.Split(path, "/") {
+		var next *Cmd
+		for _, cc := range c.Cmds {
+			if cc.Name == name {
+				next = cc
+			}
+		}
+		if next == nil {
+			return nil
+		}
+		c = next
+	}
+	return c
 }
